@@ -230,6 +230,8 @@ def _tree(data):
 def target_kind(kind, name):
     if kind == "function":
         return "method" if "." in name else "function"
+    if kind == "class" and "." in name:
+        return "nested-class"
     return {"class": "class", "argparse_function": "argparse"}[kind]
 
 
@@ -301,8 +303,8 @@ def has_return_entry(node, kind):
 
 
 def enclosing_state(kind, name, data):
-    """For a method target: does the file define the enclosing class?  (present | absent | n/a)"""
-    if kind != "function" or "." not in name:
+    """For a method / nested-class target: does the file define the enclosing class?  (present | absent | n/a)"""
+    if kind not in ("function", "class") or "." not in name:
         return None
     tree = _tree(data)
     if tree is None:
@@ -667,7 +669,7 @@ def c09_after_swallowed_fault(op, S0, SF, simF, stats):
         pre = pre_state(kind, name, S0.get(f), truth)
         if pre == "stale" and kind != "class":
             continue  # F01: existing function-kind targets are never rewritten, fault or no fault
-        if kind == "function" and "." in name and pre in ("missing", "empty", "absent"):
+        if kind in ("function", "class") and "." in name and pre in ("missing", "empty", "absent"):
             continue  # F02
         common = dict(target_kind=target_kind(kind, name), pre_state=pre, write=write_path(pre), fault=simF.fired["kind"], seam=simF.fired["event_kind"], swallowed=True)
         data = SF.get(f)
